@@ -117,8 +117,10 @@ def labelsOf (evs : List Ev) (peer : String) (cfg : SessCfg) (conns : List ConnI
     | none => [.out, .inn]
   let mut out : List (Nat × List Label) := []
   let mut stopSeen := false
+  let mut doneSeen := false
   for e in evs do
-    if e.peer == peer then
+    if doneSeen then pure ()
+    else if e.peer == peer then
       match e.ev with
       | "log.t" =>
         match dirOfString (e.arg 0), stOfString (e.arg 1), stOfString (e.arg 2) with
@@ -152,7 +154,9 @@ def labelsOf (evs : List Ev) (peer : String) (cfg : SessCfg) (conns : List ConnI
         if e.arg 0 == "DeletePeer" && !stopSeen then
           stopSeen := true; out := out ++ [(e.seq, [.apiStop])]
       | "api.ret" =>
-        if e.arg 0 == "DeletePeer" then out := out ++ [(e.seq, [.stopped])]
+        -- (only the call that did stop the peer; what follows belongs to a new peer instance, if re-added)
+        if e.arg 0 == "DeletePeer" && e.arg 1 == "ok" && !doneSeen then
+          doneSeen := true; out := out ++ [(e.seq, [.stopped])]
       | _ => pure ()
     else if e.peer == "-" then
       if e.ev == "api.call" && e.arg 0 == "Close" && !stopSeen then
